@@ -31,6 +31,14 @@ void __ll_global_ctors(void);   /* emitted by tools/ll2c.py: runs the module's s
 #define ASSUME(c) do { if(!(c)) v_assume_fail(#c); } while(0)
 #define WITNESS(msg) do { } while(0)
 #endif
+/* realtime section: between RT_BEGIN and RT_END no allocator / mutex stub may be reached (C03) */
+#ifdef __cplusplus
+extern "C" unsigned int verif_rt_section;
+#else
+extern unsigned int verif_rt_section;
+#endif
+#define RT_BEGIN() (verif_rt_section = 1)
+#define RT_END() (verif_rt_section = 0)
 #define nd_u8()   ((uint8_t)nd_raw())
 #define nd_i8()   ((int8_t)nd_raw())
 #define nd_char() ((char)nd_raw())
